@@ -289,6 +289,8 @@ func checkErrKeep(c *core.Ctx, l *core.Ledger, rule string, rels []string) {
 	checkErrSense(c, l, "ERR-SENSE", rels)
 	checkErrUsed(c, l, "ERR-USED", rels)
 	checkOkSense(c, l, "OK-SENSE", rels)
+	checkErrOverwritten(c, l, rule, rels)
+	checkTypedNil(c, l, "TYPED-NIL", rels)
 	var fns []*ssa.Function
 	for _, f := range c.AllFuncs(rels...) {
 		if c.IsTestFile(f.Pos()) || !errInScope(f) {
